@@ -21,6 +21,7 @@ def run(ctx):
                         "the harness process runs many scenarios with the same action objects, as the scheduler runs many cycles: state kept across cycles by an action shows up as interference between scenarios"]
     n = 1200 if ctx.quick else 12000
     st_cluster.run_stage(ctx, PREFIXES, [("mixed", n // 2), ("fifo", n // 8), ("slots", n // 8), ("unobs", n // 4), ("unobs2", n // 2)], nontrivial_fn=nontrivial)
+    st_cluster.run_directed(ctx, PREFIXES, "C05")
 
 
 def replay(ctx, obj):
